@@ -634,6 +634,27 @@ Theorem T02c_chained_refuted :
 Proof. exact chained_refuted. Qed.
 Print Assumptions T02c_chained_refuted.
 
+(* ... and is unchanged when the inner conditions make no unknown calls (list / generator in the same kind) *)
+Theorem T02c_chained_partial : forall w e e' en tr,
+  rw_chained e = Some e' -> chained_guard e = true -> eval w e' en tr = eval w e en tr.
+Proof. exact chained_partial. Qed.
+Print Assumptions T02c_chained_partial.
+
+Example T02c_chained_guard_example :
+  let e := XComp CList (XCall 0 [XName 2]) dummy
+             [XGen (TName 2) (XComp CList (XName 2) dummy [XGen (TName 2) (XName 8) [XName 2; XNot (XName 3)]])
+                [XCall 4 [XName 2]]] in
+  chained_guard e = true
+  /\ rw_chained e = Some (XComp CList (XCall 0 [XName 2]) dummy
+                            [XGen (TName 2) (XName 8) [XName 2; XNot (XName 3); XCall 4 [XName 2]]]).
+Proof. exact chained_guard_example. Qed.
+
+(* merge_nested_comprehensions where no renaming is needed (inner target = outer target, one inner clause) *)
+Theorem T02c_nested_comps_partial : forall w e e' en tr,
+  rw_nested e = Some e' -> nested_guard_same e = true -> eval w e' en tr = eval w e en tr.
+Proof. exact nested_partial. Qed.
+Print Assumptions T02c_nested_comps_partial.
+
 Theorem T02c_nested_comps_refuted :
   exists w e e' en tr r r', rw_nested e = Some e' /\ eval w e en tr = Some r /\ eval w e' en tr = Some r' /\ r <> r'.
 Proof. exact nested_refuted. Qed.
